@@ -257,6 +257,13 @@ func Pow10(ctx context.Context, args ...object.Object) object.Object {
 	if err != nil {
 		return err
 	}
+	// Clamp before converting to int: the result of converting an out of range
+	// float is implementation-specific, and Pow10 saturates long before this.
+	if x > 1000 {
+		x = 1000
+	} else if x < -1000 {
+		x = -1000
+	}
 	return object.NewFloat(math.Pow10(int(x)))
 }
 
